@@ -1,25 +1,11 @@
-//! l21h: runs Layout21 entry points on cases read from stdin (one JSON value per line)
-//! and prints one JSON result per line. Panics are caught and reported as {"panic": msg}.
-use serde_json::{json, Value};
+//! l21h: shared driver for the per-property harness binaries (src/bin/cXX.rs).
+//! Each binary reads cases from stdin (one JSON value per line) and prints one JSON result per line.
+//! Panics are caught and reported as {"panic": msg}.
+pub use serde_json::{json, Value};
 use std::io::{BufRead, Write};
 use std::panic::{catch_unwind, AssertUnwindSafe};
 
-mod c15;
-
-fn dispatch(cmd: &str, case: &Value) -> Value {
-    match cmd {
-        "c15" => c15::run(case),
-        _ => json!({"harness_error": format!("unknown subcommand {}", cmd)}),
-    }
-}
-
-fn main() {
-    let args: Vec<String> = std::env::args().collect();
-    if args.len() < 2 {
-        eprintln!("usage: l21h <subcommand> < cases.jsonl > results.jsonl");
-        std::process::exit(2);
-    }
-    let cmd = args[1].clone();
+pub fn main_loop(run: fn(&Value) -> Value) {
     // Silence the default panic message; the payload is captured below.
     std::panic::set_hook(Box::new(|_| {}));
     let stdin = std::io::stdin();
@@ -34,10 +20,11 @@ fn main() {
             Ok(v) => v,
             Err(e) => {
                 writeln!(out, "{}", json!({"harness_error": format!("bad case json: {}", e)})).unwrap();
+                out.flush().unwrap();
                 continue;
             }
         };
-        let res = catch_unwind(AssertUnwindSafe(|| dispatch(&cmd, &case)));
+        let res = catch_unwind(AssertUnwindSafe(|| run(&case)));
         let v = match res {
             Ok(v) => v,
             Err(p) => {
@@ -52,6 +39,8 @@ fn main() {
             }
         };
         writeln!(out, "{}", v).unwrap();
+        // flush per case so that a later abort (stack overflow) does not lose earlier results
+        out.flush().unwrap();
     }
     out.flush().unwrap();
 }
